@@ -192,6 +192,18 @@ def gen_ids(rng, n):
     return ids
 
 
+def partition(rng, parts):
+    '''Split a list of particle letters into designator groups (n / n,p).'''
+    parts = list(parts)
+    rng.shuffle(parts)
+    groups = []
+    while parts:
+        k = 2 if len(parts) >= 2 and rng.random() < 0.3 else 1
+        groups.append(parts[:k])
+        parts = parts[k:]
+    return groups
+
+
 def gen_deck(rng, level0=True, malformed=False, like=True):
     '''Abstract deck with ground-truth importances.  level0: only cells the
     whole converter can run on (no universes / fills / lattices / TRCL); such a
@@ -210,9 +222,9 @@ def gen_deck_once(rng, level0, malformed, like):
     particles = rng.sample(['n', 'p', 'e', 'h'], rng.choice([1, 1, 2, 3]))
     cards = []          # (name, items)
     if mode != 'cell':
-        for part in particles:
+        for group in partition(rng, particles):
             cards.append((g.case_mix('imp', rng) + ':'
-                          + g.case_mix(part, rng),
+                          + g.case_mix(','.join(group), rng),
                           g.gen_imp_items(rng, n, zero_bias=0.35,
                                           allow_log=rng.random() < 0.15)))
     expanded = [g.spec_expand(items) for _, items in cards]
@@ -228,11 +240,13 @@ def gen_deck_once(rng, level0, malformed, like):
         has_imp = mode == 'cell' or (mode == 'mixed' and rng.random() < 0.5)
         blocks = []
         if has_imp:
-            for part in rng.sample(particles, rng.randint(1, len(particles))):
-                sp = '0' if rng.random() < 0.4 else rng.choice(g.IMP_VALUES)
-                blocks.append({'kind': 'imp', 'kw': 'imp:' + part,
+            chosen = rng.sample(particles, rng.randint(1, len(particles)))
+            for group in partition(rng, chosen):
+                sp = rng.choice(g.ZERO_SPELLINGS) if rng.random() < 0.4 \
+                    else rng.choice(g.IMP_VALUES)
+                blocks.append({'kind': 'imp', 'kw': 'imp:' + ','.join(group),
                                'vals': [sp], 'value': float(sp),
-                               'part': part})
+                               'parts': group})
         if rng.random() < 0.3:
             blocks.append(g.gen_block(rng, 'noise'))
         if not level0:
@@ -270,6 +284,9 @@ def gen_deck_once(rng, level0, malformed, like):
     for cell in cells:
         if cell['like'] is None:
             cell['geom'] = g.geom_for(cell['index'], n_explicit)
+            if rng.random() < 0.15:
+                cell['geom'] = '(' + cell['geom'] + ')'
+                cell['glue'] = rng.random() < 0.5
         cell['opts'] = g.render_opts(cell['blocks'], rng)
     by_id = {c['id']: c for c in cells}
 
@@ -286,7 +303,8 @@ def gen_deck_once(rng, level0, malformed, like):
             own = {}
             for blk in link['blocks']:
                 if blk['kind'] == 'imp':
-                    own[blk['part']] = blk['value']
+                    for part in blk['parts']:
+                        own[part] = blk['value']
             if own:
                 # a BUT IMP entry replaces the entry of the same particle
                 imps.update(own)
@@ -416,7 +434,8 @@ def like_lowered(deck, cell):
         own = {}
         for blk in link['blocks']:
             if blk['kind'] == 'imp':
-                own[blk['part']] = blk['value']
+                for part in blk['parts']:
+                    own[part] = blk['value']
         if link.get('like') is not None and any(
                 v == 0 and seen.get(part, 0) > 0 for part, v in own.items()):
             return True
